@@ -217,9 +217,9 @@ func icmpChecksum(h header.ICMPv6, src, dst tcpip.Address, vv buffer.VectorisedV
 	binary.BigEndian.PutUint32(upperLayerLength[:], uint32(len(h)+vv.Size()))
 	xsum = header.Checksum(upperLayerLength[:], xsum)
 	xsum = header.Checksum([]byte{0, 0, 0, uint8(header.ICMPv6ProtocolNumber)}, xsum)
-	for _, v := range vv.Views() {
-		xsum = header.Checksum(v, xsum)
-	}
+	// Sum the payload as one byte string: adding it view by view pads every
+	// odd-length view with a zero byte and shifts the bytes that follow it.
+	xsum = header.Checksum(vv.ToView(), xsum)
 
 	// h[2:4] is the checksum itself, set it aside to avoid checksumming the checksum.
 	h2, h3 := h[2], h[3]
